@@ -80,8 +80,8 @@ CHECKS.update({
 })
 
 CHECKS.update({
- "C04": ("proof", "Coq theorems over the decoder model (the function-by-function mirror of unpack_ldap_message that is compared with the implementation on every run): (1) the header reader returns the same tag and length for every valid definite length form (short, or long with 1..126 length octets, leading zeros included); (2) for every peer encoder that chooses, per TLV node, any valid length octets as a function of the node's content, writes TRUE as any one non-zero octet and may write DEFAULT FALSE components (criticality, dnAttributes) explicitly, every message of every operation with filters of any depth and any controls decodes, consuming exactly the message, to the value decoded from the library's own encoding (modulo the raw value octets a paged-results control exposes, which are 'as received'). The minimal lengths and Active Directory's fixed four-octet lengths are proved to be instances. An independent Python RFC 4511 encoder with per-node random freedoms (incl. trailing elements with arbitrary unrecognised tags) is run against implementation and extracted model on every run.",
-         "NOT covered by the theorems: unrecognised trailing elements after the defined components of a sequence (checked by the differential check only). The length-octet choice is a function of the node's content, so two nodes with identical content get the same form; the TRUE octet is one value per message. Encodings below 256^125 octets.",
+ "C04": ("proof", "Coq theorems over the decoder model (the function-by-function mirror of unpack_ldap_message that is compared with the implementation on every run): (1) the header reader returns the same tag and length for every valid definite length form (short, or long with 1..126 length octets, leading zeros included); (2) for every peer encoder that chooses, per TLV node, any valid length octets as a function of the node's content, writes TRUE as any one non-zero octet, may write DEFAULT FALSE components (criticality, dnAttributes) explicitly, and appends at each of the sixteen extensible SEQUENCE sites any list of unrecognised elements (APPLICATION or PRIVATE class with any tag number incl. those of defined components, or context-specific numbers above 11), every message of every operation with filters of any depth and any controls decodes, consuming exactly the message, to the value decoded from the library's own encoding (modulo the raw value octets a paged-results control exposes, which are 'as received'). The minimal lengths and Active Directory's fixed four-octet lengths are proved to be instances. An independent Python RFC 4511 encoder with per-node random freedoms (incl. trailing elements with arbitrary unrecognised tags) is run against implementation and extracted model on every run.",
+         "Trailing elements with UNIVERSAL tags (e.g. NULL) are exercised by the differential check only (at the control and SASL sites a universal BOOLEAN / OCTET STRING would be a defined component). The length-octet choice is a function of the node's content, so two nodes with identical content get the same form; the TRUE octet is one value per message. Encodings below 256^125 octets.",
          "machine-checked proof in Coq (generalised TLV lemmas + the C01 development replayed for a parametrised peer encoder) + BER-freedom differential testing against implementation and extracted model"),
 })
 
